@@ -518,3 +518,12 @@ func unhex(s string) []byte {
 	}
 	return b
 }
+
+// fieldsFrom splits the tokens of an op line from position `from` on ':'.
+func fieldsFrom(line string, from int) [][]string {
+	var out [][]string
+	for _, tok := range strings.Fields(line)[from:] {
+		out = append(out, strings.Split(tok, ":"))
+	}
+	return out
+}
